@@ -594,6 +594,49 @@ func checkC09(c *core.Ctx) {
 			stdin string
 		}{a, "- chord: {degree: \"1\", name: zc}\n  values: [1]\n"})
 	}
+	// a consistent dictionary with a chain of 45 extends: resolving its last chord is a matter of milliseconds
+	{
+		var cs []userChord
+		for k := 0; k < 45; k++ {
+			uc := userChord{Name: fmt.Sprintf("Zlong%d", k), Display: fmt.Sprintf("zlong%d", k), Attrs: []string{[]string{"Perfect1", "Major3", "Perfect5", "Minor7", "Major9"}[k%5]}}
+			if k > 0 {
+				uc.Extends = fmt.Sprintf("Zlong%d", k-1)
+			}
+			cs = append(cs, uc)
+		}
+		chain := c.Scratch.File("long-chain.yml", chordsYAML(cs))
+		for _, a := range [][]string{{"info", "chord", "describe", "-t", "C_zlong44", "--chord", chain}, {"write", "--chord", chain}, {"write", "event", "--chord", chain}, {"info", "chord", "list", "--chord", chain}} {
+			edges = append(edges, struct {
+				args  []string
+				stdin string
+			}{a, "- chord: {degree: \"1\", name: zlong44}\n  values: [1]\n"})
+		}
+	}
+	// the input ends in a read error instead of an end of input (complete piece, then EIO): that run has failed
+	c.Stream("readerror", 8, func(i int, _ *rand.Rand) {
+		cmds := [][]string{{"text", "parse"}, {"text", "conv", "syllable"}, {"text", "conv", "degree"}, {"text", "parse", "-"}, {"write"}, {"write", "event"}, {"write", "parse"}, {"write", "conv", "-c", "cmt"}}
+		in := "C[1] Am7/G[2]\nR[1] F[1]\n"
+		if i == 2 {
+			in = "1[1] 6m7/5[2]\nR[1] 4[1]\n"
+		}
+		if i >= 4 {
+			in = "- chord: {degree: \"1\", name: \"m7\"}\n  values: [1]\n- values: [2]\n"
+		}
+		res := c.Crd.Run(runner.Opt{Stdin: []byte(in), StdinKind: "eio"}, cmds[i]...)
+		name := strings.Join(cmds[i], " ") + " (input ends in a read error)"
+		if res.StartErr != nil {
+			c.Inconclusive("no pseudo terminal available: " + res.StartErr.Error())
+			return
+		}
+		if !judgeOutcome(c, "readerror", i, name, res, map[string]any{"input": in}) {
+			return
+		}
+		if res.OK() {
+			c.Violate("readerror", i, "readerror:success:"+strings.Join(cmds[i][:2], " "), fmt.Sprintf("`crd %s`: reading the input failed with an I/O error after %d bytes, yet the command reports success", strings.Join(cmds[i], " "), len(in)), map[string]any{"run": obs(res)})
+			return
+		}
+		c.Nontrivial("readerror|" + name)
+	})
 	c.Stream("edges", len(edges), func(i int, _ *rand.Rand) {
 		e := edges[i]
 		res := c.Crd.Run(runner.Opt{Stdin: []byte(e.stdin), CPUSec: 60}, e.args...)
@@ -745,7 +788,11 @@ func nonsenseCatalogue(c *core.Ctx) {
 		nonsense{name: "instance without durations", yaml: []string{"- chord: {degree: \"1\", name: \"\"}\n", "- chord: {degree: \"1\", name: \"\"}\n  values: []\n", "- chord: {degree: \"1\", name: \"\"}\n  values: null\n", chordY("- bpm: 120\n"), chordY("- {}\n")}},
 		nonsense{name: "tempo zero", text: []string{"C[1]{bpm=0}", "C[1] R[1]{bpm=0}", "1[1]{bpm=00}"}, yaml: []string{chordY("  bpm: 0\n"), chordY("- values: [1]\n  bpm: 0\n"), chordY("  bpm: \"0\"\n")}},
 		nonsense{name: "unknown dynamic", text: []string{"C[1]{vel=xx}", "C[1]{vel=fff}", "C[1]{vel=F}", "1[1] R[1]{vel=mpp}"}, yaml: []string{chordY("  velocity: xx\n"), chordY("  velocity: fff\n"), chordY("- values: [1]\n  velocity: \"\"\n"), chordY("  velocity: PP\n")}, flags: [][]string{{"--velocity", "xx"}, {"--velocity", "fff"}, {"--velocity", "F"}, {"--velocity=mpp"}}},
-		nonsense{name: "unknown chord symbol", text: []string{"Cfoo[1]", "C_77[1]", "1_nosuch[1]", "C[1] Dm7[1] Emin7[1]"}, yaml: []string{"- chord: {degree: \"1\", name: \"foo\"}\n  values: [\"1\"]\n", "- chord: {degree: \"1\", name: \"M\"}\n  values: [\"1\"]\n", chordY("- chord: {degree: \"5\", name: \"minorseventh\"}\n  values: [1]\n")},
+		nonsense{name: "unknown chord symbol", text: []string{"Cfoo[1]", "C_77[1]", "1_nosuch[1]", "C[1] Dm7[1] Emin7[1]", "11[1] 1_1[1]", "1m/3[1] 1_m/3x[1]"}, yaml: []string{
+			// behind a valid chord that spells the same characters when degree, symbol and bass are run together
+			"- chord: {degree: \"11\", name: \"\"}\n  values: [1]\n- chord: {degree: \"1\", name: \"1\"}\n  values: [1]\n",
+			"- chord: {degree: \"1\", name: m, base: \"3\"}\n  values: [1]\n- chord: {degree: \"1\", name: \"m/3\"}\n  values: [1]\n",
+			"- chord: {degree: \"1\", name: \"7\"}\n  values: [1]\n- chord: {degree: \"17\", name: \"\"}\n  values: [1]\n- chord: {degree: \"1\", name: \"77\"}\n  values: [1]\n- chord: {degree: \"17\", name: \"7x\"}\n  values: [1]\n","- chord: {degree: \"1\", name: \"foo\"}\n  values: [\"1\"]\n", "- chord: {degree: \"1\", name: \"M\"}\n  values: [\"1\"]\n", chordY("- chord: {degree: \"5\", name: \"minorseventh\"}\n  values: [1]\n")},
 			cmds: [][]string{{"info", "chord", "describe", "-t", "Cfoo"}, {"info", "chord", "describe", "-t", "C_77"}, {"info", "attr", "describe", "-t", "Major99"}, {"info", "attr", "describe", "-t", ""}}},
 		nonsense{name: "unknown modifier command", cmds: [][]string{{"write", "conv", "-c", "xyz"}, {"write", "conv", "-c", "cmt,xyz"}, {"write", "conv", "-c", "CMT"}, {"write", "conv"}, {"write", "conv", "-c", ""}}},
 		nonsense{name: "mixed notation", text: []string{"C[1] 2[1]", "1[1] D[1]", "C/2[1]", "1/E[1]", "C[1] R[1] 5_7[1]"}},
